@@ -246,6 +246,27 @@ PositionalCases ==
            x \in {<<>>, <<SEmitF(<<"n">>)>>, <<SEmitF(<<"s", "n">>)>>}, ns \in {<<"n">>, <<"n", "s">>, <<"s", "n">>}, q \in BOOLEAN}
 
 (***************************************************************************)
+(* "emitp": emit and emitp side by side on one-, two- and three-level maps   *)
+(* with fewer, as many and more names than levels                           *)
+(***************************************************************************)
+SEmitP(name, by) == [t |-> "emitp", name |-> name, by |-> by]
+Recs4 == << << <<"a", I(1)>>, <<"b", S("x")>> >>, << <<"a", I(3)>>, <<"b", S("y")>> >>, << <<"a", I(1)>>, <<"b", S("y")>> >>,
+            << <<"a", I(3)>>, <<"b", S("x")>> >> >>
+EmitPMain == <<SOp(O("sum", <<>>), Oos("sum"), "+", Fld("a")),                                          \* @sum += $a
+               SOp(O("tot", <<Fld("b")>>), Idx(Oos("tot"), <<Fld("b")>>), "+", Fld("a")),                 \* @tot[$b] += $a
+               SAssign(O("deep", <<Fld("b"), Fld("a")>>), NRx),                                         \* @deep[$b][$a] = NR
+               SAssign(O("d3", <<Fld("b"), Fld("a"), EStr("k")>>), NRx)>>                               \* @d3[$b][$a]["k"] = NR
+EmitPEnds == {<<SEmit(v, by)>> : v \in {"sum", "tot", "deep", "d3"}, by \in {<<>>, <<"b">>, <<"b", "a">>}}
+             \cup {<<SEmitP(v, by)>> : v \in {"sum", "tot", "deep", "d3"}, by \in {<<>>, <<"b">>, <<"b", "a">>}}
+             \cup {<<SEmitP("deep", <<"b">>), SEmit("deep", <<"b">>)>>, <<SEmitP("nosuch", <<>>), SEmitP("tot", <<"b">>)>>}
+\* (more names than levels, and names on a scalar, are outside what the reference shows; left out)
+EmitPDocumented(e) == \A i \in 1..Len(e) :
+   Len(e[i].by) <= (CASE e[i].name = "sum" -> 0 [] e[i].name = "tot" -> 1 [] e[i].name = "deep" -> 2 [] e[i].name = "d3" -> 3 [] OTHER -> 0)
+EmitPCases == {Case(Prog(<<>>, <<>>, EmitPMain \o m, e, q), rs) :
+                 m \in {<<>>} \cup {<<x[1]>> : x \in {y \in EmitPEnds : Len(y) = 1 /\ y[1].name \in {"sum", "tot"} /\ EmitPDocumented(y)}},
+                 e \in {x \in EmitPEnds : EmitPDocumented(x)}, q \in BOOLEAN, rs \in {Recs4, SubSeq(Recs4, 1, 1)}}
+
+(***************************************************************************)
 (* "index": arrays 1-up, negative aliases, slices, out-of-bounds, auto-extend; *)
 (* maps auto-create; unset of elements                                       *)
 (***************************************************************************)
@@ -386,6 +407,6 @@ EmitSnapCases ==
   \cup {LawCase(Prog(<<>>, <<>>, t \o <<e>>, fin, TRUE), Recs2, Prog(<<>>, <<>>, t \o <<e>>, <<>>, TRUE), SubSeq(Recs2, 1, k)) :
            t \in {Tally, TallyMapFirst}, e \in REmit, fin \in {<<>>, <<SEmit("r", <<>>)>>}, k \in {1, 2}}
 
-Cases == CASE Family = "positional" -> PositionalCases [] Family = "emitsnap" -> EmitSnapCases [] Family = "unset" -> UnsetCases [] Family = "multifor" -> MultiForCases [] Family = "hof" -> HofCases [] Family = "scope" -> ScopeCases [] Family = "func" -> FuncCases [] Family = "loops" -> LoopCases
+Cases == CASE Family = "emitp" -> EmitPCases [] Family = "positional" -> PositionalCases [] Family = "emitsnap" -> EmitSnapCases [] Family = "unset" -> UnsetCases [] Family = "multifor" -> MultiForCases [] Family = "hof" -> HofCases [] Family = "scope" -> ScopeCases [] Family = "func" -> FuncCases [] Family = "loops" -> LoopCases
            [] Family = "records" -> RecordCases [] Family = "index" -> IndexCases [] Family = "expr" -> ExprCases
 =============================================================================
